@@ -82,9 +82,12 @@ func (c01) Run(e *Env) { runConservation(e, "C01") }
 func runConservation(e *Env, prop string) {
 	routing := prop == "C06"
 	if routing {
-		e.ProbeDecl("colocated-pair", "separated-pair", "sub-batch-split")
+		e.ProbeDecl("colocated-pair", "separated-pair", "sub-batch-split", "empty-name-series")
 	}
-	e.ProbeDecl("flush-with-stalled-shard", "delivery-while-stalled", "callback-delayed", "reader-backpressure", "multi-shard-flush", "sampled-counter", "negative-counter", "tag-repeated-on-the-wire")
+	e.ProbeDecl("flush-with-stalled-shard", "delivery-while-stalled", "callback-delayed", "reader-backpressure", "multi-shard-flush", "sampled-counter", "negative-counter")
+	if !routing {
+		e.ProbeDecl("tag-repeated-on-the-wire")
+	}
 	cfg := W1Config{
 		Readers:    e.Range(1, 3),
 		Parsers:    e.Range(1, 4),
